@@ -6,6 +6,8 @@ import time, json
 from .world import World
 from .fingerprint import fingerprint
 
+SOFT_KINDS = ("timer_at_idle", "state_retained_at_idle")
+
 class HarnessError(Exception):
     pass
 
@@ -102,7 +104,10 @@ def explore(scenario, monitor_factory, bound=None, max_states=200000, max_depth=
                         if stop_on_first:
                             res.wall = time.time() - t0
                             return res
-                        break   # a violating state is not expanded further
+                        if any(v.kind not in SOFT_KINDS for v in new):
+                            break   # a violating state is not expanded further
+                        # purely observational findings (something still held at an idle point) do not end the path:
+                        # what the leftover does when it finally runs must be explored too
                 fp = fingerprint(w)
                 if len(path) >= fresh or not choices:
                     old = visited.get(fp)
